@@ -33,6 +33,9 @@ def view_eq(I, a, b, depth=0):
         # a list rebuilt element by element from the source list: equal iff the rebuilt generic
         # element equals the source's generic element on what the writer transferred
         return view_eq(I, a.value, I.codec.generic_of(b)[1], depth + 1)
+    if isinstance(a, SMapped) and isinstance(b, SMapped) and a.src is b.src:
+        # two element-wise images of the same source list: equal iff the images of the generic element are
+        return view_eq(I, a.value, b.value, depth + 1)
     if isinstance(a, SMapped) or isinstance(b, SMapped):
         return z3.BoolVal(False)
     if isinstance(a, (SList, STuple)) and isinstance(b, LList):
